@@ -137,7 +137,7 @@ class CriterionProxy:
         return loss
 
 
-def run_trainer(sg, E, NB, NV, NT, evaluator_mode, callbacks, seed, do_fit=True, do_test=True, batch=4, ambient=None, loader_kind="list"):
+def run_trainer(sg, E, NB, NV, NT, evaluator_mode, callbacks, seed, do_fit=True, do_test=True, batch=4, ambient=None, loader_kind="list", fits=1):
     """Runs a real Trainer on a small model with BatchNorm and Dropout. Returns (trace, info).
     ambient: None | "test_in_no_grad" (the caller runs test() inside a no_grad block of its own: event `ambient`
     before and after) | "ctor_in_no_grad" (the Trainer object is built and compiled inside a no_grad block that is
@@ -197,7 +197,7 @@ def run_trainer(sg, E, NB, NV, NT, evaluator_mode, callbacks, seed, do_fit=True,
         trainer.compile(CriterionProxy(crit, rec), OptProxy(opt, rec), evaluator)
     rec.trainer = trainer
     trace = dict(cfg=dict(E=E, NB=NB, NV=NV, NT=NT), tr0=bool(model.training), fit=bool(do_fit), ev=rec.ev)
-    info = dict(E=E, NB=NB, NV=NV, NT=NT, evaluator=(evaluator_mode if evaluator_mode == "custom" else bool(evaluator_mode)), callbacks=callbacks, seed=seed, ambient=ambient, do_fit=do_fit, loader_kind=loader_kind)
+    info = dict(E=E, NB=NB, NV=NV, NT=NT, evaluator=(evaluator_mode if evaluator_mode == "custom" else bool(evaluator_mode)), callbacks=callbacks, seed=seed, ambient=ambient, do_fit=do_fit, loader_kind=loader_kind, fits=fits)
 
     # hooks that live outside the repository: Tensor.backward wrapper and the progress bar
     orig_bw = sg.Tensor.backward
@@ -224,9 +224,13 @@ def run_trainer(sg, E, NB, NV, NT, evaluator_mode, callbacks, seed, do_fit=True,
                 kw = dict(on_train_epoch=lambda m, l: (cb_calls.append("t"), m.eval()), on_validation_epoch=lambda m, l: (cb_calls.append("v"), m.train()))
             elif callbacks:
                 kw = dict(on_train_epoch=lambda m, l: cb_calls.append("t"), on_validation_epoch=lambda m, l: cb_calls.append("v"))
-            hist = trainer.fit(train_loader, E, validation_loader=val_loader, **kw)
-            lens = [len(v) for v in hist.values()] or [0]
-            rec.log("fit_end", hmin=min(lens), hmax=max(lens))
+            for _fit in range(fits):
+                # (a Trainer may be fitted again: every fit() returns the history of ITS epochs)
+                del rec.losses[:]
+                del cb_calls[:]
+                hist = trainer.fit(train_loader, E, validation_loader=val_loader, **kw)
+                lens = [len(v) for v in hist.values()] or [0]
+                rec.log("fit_end", hmin=min(lens), hmax=max(lens))
             info["history_keys"] = sorted(hist.keys())
             info["history"] = {k: [float(x) for x in v] for k, v in hist.items()}
             info["losses"] = list(rec.losses)
